@@ -38,6 +38,9 @@ def scenarios_for(prop, tier, rng):
         if prop == "C01":
             # exit 0 must imply convergence also when the router rejected a step
             fc, r2 = tlc_cases("fault", 0, f"{prop}-gen-fault"); gens.append(r2)
+        bg = agentgen.big_scenarios(prop)
+        sc += bg if thorough or prop == "C02" else bg[1:]
+        counts["big_policy_scenarios"] = len(bg) if thorough or prop == "C02" else 1
         if prop == "C02":
             xc, r3 = tlc_cases("foreign", 0, f"{prop}-gen-foreign"); gens.append(r3)
             sc += agentgen.foreign_scenarios(xc, prop)
